@@ -69,6 +69,11 @@ def forced_programs():
         sel = ("un", ("sel", ("cmp", "gt", ("ref", k), ("lit", 0))), leaf)
         lazies = [leaf, sel, ("un", ("slice", 0, 1), sel), ("un", ("slice", 1, 2), sel), ("un", ("slice", 0, 1), leaf),
                   ("un", ("calc", _e.K(2), ("add", ("ref", k), ("lit", 1))), leaf), ("chain", sel, sel)]
+        zero = [("un", ("proj", []), x) for x in (sel, leaf, ("un", ("slice", 0, 2), sel))]
+        for z in zero:         # zero-column inputs: all rows are equal, yet the input is still consumed once, at execute()
+            out.append(("un", ("dedup",), z))
+            out.append(("mat", 8, z))
+            out.append(("un", ("slice", 0, 1), ("un", ("dedup",), z)))
         for t in lazies:
             out.append(("un", ("sort", [(("ref", k), False)]), t))
             out.append(("un", ("dedup",), t))
